@@ -455,7 +455,8 @@ Definition run_act (fx : fixes) (s : st) (a : act) : option (st * list act) :=
       match nth_error (eps s) e with
       | Some x =>
           if fx_epid fx then
-            if k_closing k then
+            if e_pub x || e_freed x || e_onlist x then Some (add_bad s B_USE_FREED, [])   (* only ever run on the endpoint AEpCreate1 just made *)
+            else if k_closing k then
               (* add fails: the id is removed, the endpoint destroyed by its creator *)
               Some (set_eps s (upd (eps s) e (fun x => eset_freed (eset_inmap (eset_ref x 0) false))), [ASockRele; ARet (UEpCreate (e_dialer x)) C_ECLOSED R_NA])
             else Some (set_eps s (upd (eps s) e (fun x => eset_pub (eset_onlist (eset_ref x (S (e_ref x))) true))), [AEpRele e; ARet (UEpCreate (e_dialer x)) C_OK R_NA])
